@@ -220,6 +220,14 @@ package fs
 //@   at-send lines [running-number] elem.Count == f.lineCount && elem.Count > g_lastCount && elem.SourceID == f.globID
 //@   loop 1 invariant [every-line-forwarded-once-in-order] implies(!cancelled() && !f.canSkipLines && re.flags[0] == regex.Noop, g_linesStr == g_inStr)
 //@   loop 1 invariant [numbers-increase] g_lastCount <= f.lineCount
+// (C04) Every raw line received is judged by transmittable, which is where a
+// dropped matching line is booked; the plain filter itself books nothing.
+//@   ghost-init g_recvd == 0
+//@   ghost-init g_judged == 0
+//@   on-recv rawLines effect g_recvd == g_recvd + 1
+//@   at-call transmittable effect g_judged == g_judged + 1
+//@   loop 1 invariant [every-line-judged] g_judged == g_recvd
+//@   calls-only (*stats).updatePosition, (*readFile).transmittable, context.Context.Done
 
 // ---- reader selection (C01 S1, C04) -------------------------------------------------------------
 //@ func (readFile).FilePath
